@@ -14,8 +14,9 @@ pub struct Tier {
     pub name: &'static str,
     pub runs: u64,
     pub max_len: usize,
-    /// run the bounded systematic pass (all cut sets / all fault placements) on short workloads
-    pub systematic: bool,
+    /// run the bounded systematic pass (all cut sets / all fault placements) around every n-th
+    /// seeded run whose workload is short enough (0 = never, 1 = every run)
+    pub systematic_every: u64,
     pub workers: usize,
     /// stop at the lowest violating run index (no known findings to step over)
     pub stop_on_first: bool,
@@ -86,7 +87,7 @@ pub fn run_batch(prop: &Prop, seed: u64, tier: &Tier) -> Batch {
                     let mut violated = o.violation.is_some();
                     if violated {
                         found.push((i, t.clone(), o));
-                    } else if tier.systematic {
+                    } else if tier.systematic_every > 0 && i % tier.systematic_every == 0 {
                         if let Some(sys) = prop.systematic {
                             let (n, v) = sys(&t, &mut stats);
                             sys_evals.fetch_add(n, Ordering::Relaxed);
